@@ -13,8 +13,8 @@
    [registered h] = the abstract set of pairs added and not removed since
    (C11_registered_spec).  No hypothesis on histories: repeats, removals of unknown pairs
    and unparsable crontabs are all included. *)
-From Coq Require Import Permutation.
-From Verif Require Import Common C11_Model C11_Spec C11_Proofs C11_Hm C11_HmSpec C11_HmProofs C11_IdProofs.
+From Coq Require Import Permutation Sorted.
+From Verif Require Import Common C11_Model C11_Spec C11_Proofs C11_Hm C11_HmSpec C11_HmProofs C11_IdProofs C11_StartSpec C11_StartProofs.
 
 (* the whole decidable predicate P of C11_Spec (cron entries after every operation of a
    system of hooks sharing one manager; per-hook answers to every firing - a string
@@ -466,3 +466,78 @@ Proof.
   split; [vm_compute; reflexivity|]. split; [vm_compute; reflexivity|].
   split; [vm_compute; reflexivity|]. split; [vm_compute; now left | vm_compute; reflexivity].
 Qed.
+
+(* ---- where ScheduleManager.Start() falls in the history (C11_StartSpec, C11_StartProofs) ----
+   [OSmStart] = sm.Start().  In the operator the main queue - whose EnableScheduleBindings tasks
+   call Add - is started BEFORE ScheduleManager.Start(), and bindings are disabled and enabled
+   again at any time.  [op] has OSmStart as one more operation, so EVERY theorem above that
+   quantifies over [i] / [ops] (C11_P_holds, C11_round_one_task_per_binding, C11_hm_P_holds,
+   C11_op_P_holds, C11_entry_iff_some_enabled_hook_binding, ...) speaks about all histories with
+   Start() anywhere in them: crontabs added before Start, added and removed again before Start,
+   several added in any order, the last binding of a crontab registered before Start removed
+   after it, the crontab registered again. *)
+
+(* the predicates of the two case classes with the tick clause - P resp. P_op, and: one tick of
+   the runner while nothing is waiting delivers every parsable crontab with a registered id
+   exactly once and no other string - hold of the model on EVERY input *)
+Theorem C11_start_P_holds : forall i, P_start i (run_model i) = true.
+Proof. exact P_start_holds. Qed.
+Print Assumptions C11_start_P_holds.
+
+Theorem C11_start_op_P_holds : forall i, P_op_start (load_input i) (run_op i) = true.
+Proof. exact P_op_start_holds. Qed.
+Print Assumptions C11_start_op_P_holds.
+
+(* in words: after ANY history [pre ++ OSmStart :: post] the set of firing crontabs is exactly
+   the set of parsable crontabs with a registered id ([fires], on the registry the Spec tracks),
+   each delivered once per tick; entry ids are distinct; and state and registry are those of
+   the same history without the Start() *)
+Theorem C11_start_anywhere_fires_exactly_registered : forall i pre post c,
+  let ops := pre ++ OSmStart :: post in
+  let s := run_ops i ops (sys_init i) in
+  let st := fold_left (spec_step (i_hooks i)) ops (spec_init (i_hooks i)) in
+  count_recv c (map snd (cron (s_sm s))) = (if fires (valid_of (i_invalid i)) (fst st) c then 1 else 0)%nat
+  /\ NoDup (map fst (cron (s_sm s)))
+  /\ s = run_ops i (pre ++ post) (sys_init i)
+  /\ st = fold_left (spec_step (i_hooks i)) (pre ++ post) (spec_init (i_hooks i)).
+Proof. exact start_anywhere. Qed.
+Print Assumptions C11_start_anywhere_fires_exactly_registered.
+
+(* "stops when the last one is removed" / "keeps firing" at any moment of any history (Start()
+   anywhere or nowhere): a crontab without a registered id has no entry in the runner; a
+   parsable one with a registered id has exactly one *)
+Theorem C11_stops_with_last_binding_and_restarts : forall i ops c,
+  let s := run_ops i ops (sys_init i) in
+  let reg := fst (fold_left (spec_step (i_hooks i)) ops (spec_init (i_hooks i))) in
+  (has_binding c reg = false -> forall e, ~ In (e, c) (cron (s_sm s)))
+  /\ (valid_of (i_invalid i) c = true -> has_binding c reg = true ->
+      exists e, In (e, c) (cron (s_sm s)) /\ cron_count c (s_sm s) = 1%nat).
+Proof. exact stops_and_restarts. Qed.
+Print Assumptions C11_stops_with_last_binding_and_restarts.
+
+(* the entries of the runner, in the order of registration, have strictly increasing ids after
+   ANY history: listing a running runner's entries by id (it keeps them sorted by next
+   activation time) is listing them in the order of registration *)
+Theorem C11_cron_ids_increase : forall i ops,
+  StronglySorted N.lt (map fst (cron (s_sm (run_ops i ops (sys_init i))))).
+Proof. exact cron_ids_increase. Qed.
+Print Assumptions C11_cron_ids_increase.
+
+(* non-vacuity: the scenario of the operator's start-up.  Hook 0 enables and disables its
+   binding (c1) before Start(), hook 1 enables its binding (c2) before Start(): c2's entry has
+   id 2.  After Start() hook 1 disables: nothing fires; it enables again: one entry (id 3),
+   one firing per tick, one task. *)
+Definition ex_start : input :=
+  mkIn [ [mkB 11 c1 101 0 false [] 0]; [mkB 21 c2 201 0 false [] 0] ]%N [] [c1; c2]
+       [OEnable 0; ODisable 0; OEnable 1; OSmStart; OTickAll; ODisable 1; OTickAll; OEnable 1; OTickAll]%N.
+
+Example C11_start_hyp_met :
+  map o_cron (run_model ex_start)
+  = [ [(1, c1)]; []; [(2, c2)]; [(2, c2)]; [(2, c2)]; []; []; [(3, c2)]; [(3, c2)] ]%N
+  /\ map o_recv (run_model ex_start) = [ []; []; []; []; [c2]; []; []; []; [c2] ]
+  /\ fst (fold_left (spec_step (i_hooks ex_start)) [OEnable 0; ODisable 0; OEnable 1; OSmStart; OTickAll; ODisable 1]%N
+            (spec_init (i_hooks ex_start))) = []
+  /\ has_binding c2 (fst (fold_left (spec_step (i_hooks ex_start)) (i_ops ex_start) (spec_init (i_hooks ex_start)))) = true
+  /\ valid_of (i_invalid ex_start) c2 = true
+  /\ P_start ex_start (run_model ex_start) = true.
+Proof. repeat split; vm_compute; reflexivity. Qed.
